@@ -312,7 +312,8 @@ def judgeEvent (sp : Spec) (st : JSt) (ev : String) : JSt :=
   | _ => addBad st "unparsable-event"
 
 def judgeSched (sp : Spec) (evs : List String) (fin raw : List String) : JSt :=
-  let initS := sp.init.zipIdx.map (fun (v, i) => (i, showVal v))
+  -- logical digests throughout (an initial memberlist value may carry a touch mark: written, then Delete()d)
+  let initS := sp.init.zipIdx.map (fun (v, i) => (i, logical (showVal v)))
   let st0 : JSt := ⟨initS, initS, [], [], [], 0, 0, 0, 0, 0⟩
   let st := evs.foldl (judgeEvent sp) st0
   let keys := List.range sp.nKeys
@@ -354,7 +355,7 @@ def writesOf (recs : List CallRec) (k : Nat) : List (String × String) :=
 
 def chainOk : String → List (String × String) → Option String
   | cur, [] => some cur
-  | cur, (i, o) :: rest => if i = cur then chainOk o rest else none
+  | cur, (i, o) :: rest => if logical i = logical cur then chainOk o rest else none
 
 def judgeStress (sp : Spec) (recs : List CallRec) (fin raw : List String) : List String :=
   let keys := List.range sp.nKeys
